@@ -100,6 +100,11 @@ class Paths:
             return None if b is None else f"{b}[]"
         if isinstance(e, ast.Starred):
             return self.of(e.value)
+        if isinstance(e, (ast.GeneratorExp, ast.ListComp, ast.SetComp)):
+            p = self.of(e.elt)
+            if p is not None and p.endswith("[]"):
+                return p[:-2]
+            return None
         if isinstance(e, ast.Call):
             fn = e.func
             if isinstance(fn, ast.Attribute) and fn.attr in ("pop", "get", "setdefault", "popitem"):
@@ -110,6 +115,9 @@ class Paths:
                 return self.of(fn.value)
             if isinstance(fn, ast.Name) and fn.id in ("reversed", "iter", "list", "tuple", "sorted", "set", "enumerate", "dict") and len(e.args) == 1:
                 return self.of(e.args[0])
+            cal = self.sc.callee(e)
+            if cal.kind == "pkg" and cal.targets:
+                return f"<ret:{cal.targets[0].name}>"
             return None
         return None
 
@@ -187,7 +195,8 @@ class Effects:
                     kind = _METHOD_EFFECT.get((ck, fn.attr))
                     if kind is not None and path is not None:
                         out.append(Effect(n, path, kind, ck, fn.attr))
-                elif ck is None and rt is None and path is not None and n.callee.kind in ("unknown", "ext"):
+                elif ck is None and (rt is None or rt.head in ("Any", "UserValue", "object")) and n.callee.kind in ("unknown", "ext"):
+                    path = path or "<expr>"
                     # untyped receiver: record by method name so who-may rules stay conservative
                     if fn.attr in ("cancel", "release", "acquire", "clear", "pop", "popitem", "add", "update", "discard", "remove", "close", "set", "task_done"):
                         out.append(Effect(n, path, "maybe-" + fn.attr, "?", fn.attr))
